@@ -53,7 +53,7 @@ func maxMembers() int {
 // runWorld generates and executes one world and evaluates every oracle; only
 // failures of property prop abort the case.
 func runWorld(t *rapid.T, prop string) {
-	unanimous := prop == "C02" && rapid.IntRange(0, 3).Draw(t, "unanimous") == 0
+	unanimous := prop == "C02" && (rapid.IntRange(0, 3).Draw(t, "unanimous") == 0 || os.Getenv("VERIF_UNANIMOUS") != "")
 	gen := vnet.GenOpts{MaxMembers: maxMembers(), MaxInstances: 3, MaxPathLen: 5, AllowByz: !unanimous, AllowSilent: true, HonestQuorum: rapid.IntRange(0, 9).Draw(t, "honestquorum") > 0 || unanimous, Unanimous: unanimous, MaxExponent: 2.0}
 	if vev.Thorough() && rapid.IntRange(0, 9).Draw(t, "longchains") == 0 {
 		gen.MaxPathLen = 127
@@ -89,8 +89,8 @@ func runWorld(t *rapid.T, prop string) {
 	w.Fail = func(id, sig, msg string) {
 		if id == prop {
 			tr := w.Trace
-			if len(tr) > 70 {
-				tr = tr[len(tr)-70:]
+			if keep := vev.IntEnv("VERIF_TRACE_LINES", 70); len(tr) > keep {
+				tr = tr[len(tr)-keep:]
 			}
 			fails = append(fails, failure{id, sig, msg, append([]string(nil), tr...)})
 		} else {
@@ -100,8 +100,11 @@ func runWorld(t *rapid.T, prop string) {
 	ro := vnet.RunOpts{Profile: profile, MaxSteps: maxSteps(), AllowDrop: !unanimous, AllowByz: !unanimous}
 	ro.GreedyDecide = !unanimous && rapid.Bool().Draw(t, "greedydecide")
 	if unanimous {
-		// timely delivery from the very start: the closing regime is the whole run
+		// timely delivery from the very start: the closing regime is the whole run; latencies
+		// strictly inside the synchrony bound (with a start skew of exactly delta and a latency
+		// of exactly delta a QUALITY vote meets the 2*delta timeout at the same instant)
 		ro.MaxSteps = 0
+		w.StrictlyTimely = true
 	}
 	w.RunPrefix(t, ro)
 	report := func() {
